@@ -75,16 +75,25 @@ def check_saved_aux(w, msg, snap):
         try:
             got, used = R.decode(data, t)
         except (R.RefError, UnicodeDecodeError) as e:
-            w.violate(("C08", "C14", "C07"), "c08:undecodable", "%s.aux_data[%r] (%s): reference codec cannot decode written bytes %s: %s" % (cl, name, tbl["type"], data.hex(), e))
+            w.violate(("C08", "C14", "C07", "C01"), "c08:undecodable", "%s.aux_data[%r] (%s): reference codec cannot decode written bytes %s: %s" % (cl, name, tbl["type"], data.hex(), e))
         if used != len(data):
-            w.violate(("C08", "C14", "C07"), "c08:trailing", "%s.aux_data[%r] (%s): %d bytes written, value occupies %d" % (cl, name, tbl["type"], len(data), used))
+            w.violate(("C08", "C14", "C07", "C01"), "c08:trailing", "%s.aux_data[%r] (%s): %d bytes written, value occupies %d" % (cl, name, tbl["type"], len(data), used))
         if not auxm.cv_equal(got, want, t):
             stale = tbl["raw"] is not None and data == tbl["raw"]
             w.violate(
-                ("C14", "C08", "C07") if stale else ("C08", "C14", "C07"),
+                ("C14", "C08", "C07", "C01") if stale else ("C08", "C14", "C07", "C01"),
                 "c14:stale_bytes" if stale else "c08:wrong_value",
                 "%s.aux_data[%r] (%s, %s): written bytes decode to %r, current value is %r" % (cl, name, tbl["type"], tbl["state"], got, want),
             )
+        if w.cfg.get("collect_java"):
+            from .javastage import java_supported
+
+            ex = getattr(w, "extras", None)
+            if ex is None:
+                ex = w.extras = {}
+            js = ex.setdefault("java", [])
+            if len(js) < 3 and java_supported(t):
+                js.append({"type": tbl["type"], "hex": data.hex(), "want": want})
         if not _has_unordered(t):
             ref = R.encode(want, t)
             if data != ref and not _f32_nan(t):
